@@ -16,11 +16,11 @@
 (*                                           PutDone: ~ok => n = confirmed /\ confirmed < want *)
 (*  (d) only writable services are written to           Req: s \in writable *)
 (*  (e) transient failures retried up to the limit, other refusals not     *)
-(*                                           Req: last[s] none or transient; attempts <= 1+retries *)
+(*                                           Req: last[s] not a permanent refusal; attempts <= 1+retries *)
 (*  (f) >= want writable services accepting on every attempt => success    *)
 (*                                           PutDone: ~ok => fewer than want all-accepting services *)
 (***************************************************************************)
-EXTENDS Naturals, FiniteSets
+EXTENDS Integers, FiniteSets
 
 VARIABLES cfg,        \* [writable : SUBSET Nat, want : Nat, retries : Nat]
           attempts,   \* service -> number of requests received
@@ -28,10 +28,11 @@ VARIABLES cfg,        \* [writable : SUBSET Nat, want : Nat, retries : Nat]
           allok,      \* service -> TRUE while every response it gave was a 200
           everok,     \* set of services that gave a 200 before Put returned
           confirmed,  \* sum of replicas-stored over 200 responses given before Put returned
+          maxrep,     \* service -> largest replicas-stored it confirmed in a 200 before Put returned
           maybe,      \* number of broken 200 answers given before Put returned (each may or may not count)
           done        \* "no" | "ok" | "err"
 
-cvars == <<cfg, attempts, last, allok, everok, confirmed, maybe, done>>
+cvars == <<cfg, attempts, last, allok, everok, confirmed, maxrep, maybe, done>>
 
 OkKinds   == {"ok1", "ok2", "oknh"}            \* 200 with X-Keep-Replicas-Stored 1 / 2 / absent
 Transient == {"connerr", "s408", "s429", "s500", "s502"}
@@ -52,17 +53,21 @@ CInit(c) == /\ cfg = c
             /\ allok = [s \in AllServices |-> TRUE]
             /\ everok = {}
             /\ confirmed = 0
+            /\ maxrep = [s \in AllServices |-> 0]
             /\ maybe = 0
             /\ done = "no"
 
 (* A request arrives at service s.  Requests started before Put returned   *)
 (* may still arrive afterwards (abandoned uploads), so `done` is not tested.*)
 Req(s) == /\ s \in cfg.writable                                   \* (d)
-          /\ last[s] \in {"none"} \cup Transient \cup Broken     \* (e)
+          \* (e) a refusal that is not transient is not retried.  Asking a service again after it
+          \* answered 200 is not forbidden by the statement (it is idempotent); what it confirms is
+          \* counted once per service, see Resp.
+          /\ last[s] \in {"none"} \cup Transient \cup Broken \cup OkKinds
           /\ attempts[s] < 1 + cfg.retries                        \* (e)
           /\ attempts' = [attempts EXCEPT ![s] = @ + 1]
           /\ last' = [last EXCEPT ![s] = "pending"]
-          /\ UNCHANGED <<cfg, allok, everok, confirmed, maybe, done>>
+          /\ UNCHANGED <<cfg, allok, everok, confirmed, maxrep, maybe, done>>
 
 (* Service s answers with kind k.  Answers given after Put returned are    *)
 (* not counted.                                                            *)
@@ -71,10 +76,13 @@ Resp(s, k) == /\ last[s] = "pending"
               /\ last' = [last EXCEPT ![s] = k]
               /\ allok' = [allok EXCEPT ![s] = @ /\ k \in OkKinds]
               /\ IF done = "no"
-                 THEN /\ confirmed' = confirmed + Rep(k)
+                 THEN \* replicas confirmed by one service count once (its largest claim): a second
+                      \* 200 from a service that already stored the block confirms nothing new
+                      /\ maxrep' = [maxrep EXCEPT ![s] = IF Rep(k) > @ THEN Rep(k) ELSE @]
+                      /\ confirmed' = confirmed - maxrep[s] + maxrep'[s]
                       /\ everok' = IF k \in OkKinds THEN everok \cup {s} ELSE everok
                       /\ maybe' = IF k \in Broken THEN maybe + 1 ELSE maybe
-                 ELSE UNCHANGED <<confirmed, everok, maybe>>
+                 ELSE UNCHANGED <<confirmed, maxrep, everok, maybe>>
               /\ UNCHANGED <<cfg, attempts, done>>
 
 Accepting == {s \in cfg.writable : allok[s]}
@@ -90,7 +98,7 @@ PutDone(ok, n, issuer, locok) ==
             /\ n < cfg.want
             /\ Cardinality(Accepting) < cfg.want                  \* (f)
     /\ done' = IF ok THEN "ok" ELSE "err"
-    /\ UNCHANGED <<cfg, attempts, last, allok, everok, confirmed, maybe>>
+    /\ UNCHANGED <<cfg, attempts, last, allok, everok, confirmed, maxrep, maybe>>
 
 TypeOK == /\ done \in {"no", "ok", "err"}
           /\ confirmed \in Nat
